@@ -19,7 +19,9 @@ pub open spec fn rec_body<T: Types>(r: WALRecord<T>) -> Seq<u8> { be32(rec_tag(r
 impl<T: Types> codeq::EncSpec for RaftLogState<T> {
     /// version byte 1, then the five optional fields in declaration order
     open spec fn enc(&self) -> Seq<u8> { seq![1u8] + self.vote.enc() + self.last.enc() + self.committed.enc() + self.purged.enc() + self.user_data.enc() }
-    open spec fn err_ok(input: Seq<u8>, k: IoErrorKind) -> bool { true }
+    /// UnexpectedEof is only admissible when the version byte is missing or is the KNOWN version 1: an unknown version is InvalidData
+    /// (recovery treats UnexpectedEof as an incomplete tail that may be cut off)
+    open spec fn err_ok(input: Seq<u8>, k: IoErrorKind) -> bool { k == IoErrorKind::UnexpectedEof ==> input.len() < 1 || input[0] == 1u8 }
     /// version byte 1, then the five optional fields one after the other
     open spec fn dec(s: Seq<u8>) -> Option<(Self, nat)> {
         if s.len() < 1 || s[0] != 1 { None } else {
@@ -88,7 +90,7 @@ impl<T: Types> codeq::EncSpec for WALRecord<T> {
     /// UnexpectedEof is only admissible when the input is shorter than a type tag or carries a KNOWN type tag (0..=5):
     /// an unknown tag on a complete record is InvalidData
     open spec fn err_ok(input: Seq<u8>, k: IoErrorKind) -> bool {
-        k == IoErrorKind::UnexpectedEof ==> input.len() < 4 || tag_known(input)
+        k == IoErrorKind::UnexpectedEof ==> input.len() < 4 || (tag_known(input) && (u32_of_be(input.take(4)) == 5 ==> RaftLogState::<T>::err_ok(input.skip(4), k)))
     }
     /// 4-byte tag, the fields of that record type, then the 8-byte checksum of tag+fields
     open spec fn dec(s: Seq<u8>) -> Option<(Self, nat)> {
